@@ -150,7 +150,8 @@ def detect(name, tier="quick", extra_env=None):
         rc, out = sh(f"./check {prop} {tier}", cwd=VERIF, env=env, cap=3400)
         lines = [l for l in out.splitlines()
                  if l.startswith(("VIOLATION", "violation detail",
-                                  "HARNESS", "KNOWN"))]
+                                  "HARNESS"))]
+        lines += [l for l in out.splitlines() if l.startswith("KNOWN")]
         caught = rc == 1 and any(l.startswith("VIOLATION") for l in lines)
         meta.setdefault("detection", {})[tier] = {
             "caught": caught, "rc": rc, "wall_s": round(time.time() - t0, 1),
@@ -186,6 +187,24 @@ def main(argv):
                 names.append(a)
         for n in names:
             detect(n, tier)
+    elif cmd == "mdtable":
+        print("| id | what was changed | needs | confirmed | caught by "
+              "`./check <property> quick` (signature) |")
+        print("|---|---|---|---|---|")
+        for d in sorted(glob.glob(SEEDED + "/*")):
+            m = load_meta(d)
+            det = m.get("detection", {}).get("quick", {})
+            sig = ""
+            for l in det.get("lines", []):
+                if "sig=" in l:
+                    sig = l.split("sig=")[1].split("'")[0][:90]
+                    break
+            print(f"| {os.path.basename(d)} | "
+                  f"{m.get('summary', '').replace('|', '/')[:200]} | "
+                  f"{m.get('needs', '').replace('|', '/')[:200]} | "
+                  f"{'yes' if m.get('confirmed', {}).get('ok') else 'NO'} | "
+                  f"{'yes' if det.get('caught') else 'no'}"
+                  f"{': `' + sig + '`' if sig else ''} |")
     elif cmd == "table":
         for d in sorted(glob.glob(SEEDED + "/*")):
             m = load_meta(d)
